@@ -32,6 +32,7 @@ type GenParams struct {
 	Comments         float64
 	Prefix           string
 	LenTies          bool // use a tiny palette so that ties between path lengths are frequent
+	PSingle          float64 // probability that a non-root node gets a chain of 1-3 single-child nodes above it
 }
 
 func defaultGen() GenParams {
@@ -151,9 +152,28 @@ func genSTree(r *rand.Rand, gp *GenParams) *STree {
 	if sm == 3 {
 		sm = r.Intn(3)
 	}
+	if gp.PSingle > 0 {
+		addSingles(r, s, gp.PSingle)
+	}
 	ctr := 0
 	decorate(r, gp, s, true, lm, sm, &ctr)
 	return s
+}
+
+// addSingles puts chains of 1-3 single-child inner nodes above some nodes (what re-rooting a rooted tree, or a writer of
+// "knuckles", leaves behind): removeTip's degree-1 chain, RemoveSingleNodes, the writers and the indexes must cope
+func addSingles(r *rand.Rand, n *STree, p float64) {
+	for i, c := range n.Ch {
+		addSingles(r, c, p)
+		if r.Float64() < p {
+			k := 1 + r.Intn(3)
+			cur := c
+			for j := 0; j < k; j++ {
+				cur = &STree{Len: NILU, Sup: NILU, Pv: NILU, Ch: []*STree{cur}}
+			}
+			n.Ch[i] = cur
+		}
+	}
 }
 
 // build constructs the real tree through the public API, in the given child order, and finishes
